@@ -17,7 +17,7 @@ COMBOS = [("euclidean", "dense32"), ("cosine", "csr"), ("manhattan", "dense32"),
 
 def kernel_pipeline(res, rng, n_cases):
     for c in range(n_cases):
-        cfg = dk.nnd_case(rng, small=(c % 2 == 0))
+        cfg = dk.nnd_case(rng, small=(c % 2 == 0)); cfg["sparse"] = (c % 3 == 2)
         il, ll, _ = dk.run_nnd_pair(cfg, True)
         ih, lh, _ = dk.run_nnd_pair(cfg, False)
         ml, mh = run_driver([ll, lh])
